@@ -32,12 +32,18 @@ def _case(seed, i, tier):
         extra = RS.make_case(core.stream(s, "outside"), geoms=(case["workload"]["geometry"],))
         pool = RS.settings_pool(case["workload"]["geometry"])
         good = dict(pool[1 + (i // 6) % (len(pool) - 1)])
-        bad = dict(RS.OUTSIDE[(i // 6) % len(RS.OUTSIDE)])
+        bad = dict(RS.OUTSIDE[(i // 6 * 3 + 5) % len(RS.OUTSIDE)])
         good = {k: v for k, v in good.items() if k not in bad}
-        case["ops"] = [{"op": "regrid", "s": dict(good, **bad), "tag": "outside"},
-                       {"op": "regrid", "s": good, "tag": "repair"}] + case["ops"][-2:]
-        case["ops"][-2] = {"op": "regrid", "s": dict(good), "tag": "repair-final"} \
-            if i % 12 == 2 else case["ops"][-2]
+        if i % 12 == 2:
+            # raise half-way, repair only the bad values, and stay there
+            case["ops"] = [{"op": "regrid", "s": dict(good, **bad), "tag": "outside"},
+                           {"op": "regrid", "s": dict(good), "tag": "repair-final"},
+                           {"op": "write"}]
+        else:
+            # raise half-way, then go back to exactly the settings that worked last
+            case["ops"] = [{"op": "regrid", "s": dict(good, **bad), "tag": "outside"},
+                           {"op": "regrid", "s": dict(case["s0"]), "tag": "undo-final"},
+                           {"op": "write"}]
         del extra
     if i % 6 == 4 and not any("junk" in op for op in case["ops"]):
         # stratum: the GUI passes its whole options table; other rows may have been edited
